@@ -59,6 +59,9 @@ func init() {
 			return append(a, f)
 		}}
 	}
+	// without array extensionality z3 is incomplete but faster on queries full of heap stores; an unsat stays a proof
+	mk("z3-new/noext", "smt.array.extensional=false")
+	mk("z3-new/noext2", "smt.array.extensional=false", "smt.random_seed=8", "smt.mbqi=false")
 	for i := 1; i <= 12; i++ {
 		seed := fmt.Sprintf("smt.random_seed=%d", i*7+1)
 		switch i % 4 {
@@ -92,6 +95,9 @@ func raceSolvers(names []string, file string, secs int) (string, string, string,
 	best := r{ans: "timeout", solver: "race"}
 	for i := 0; i < len(names); i++ {
 		x := <-ch
+		if x.ans == "sat" && strings.Contains(x.solver, "noext") {
+			x.ans = "unknown" // a model found without extensionality need not be a model
+		}
 		if x.ans == "unsat" || x.ans == "sat" {
 			return x.ans, x.solver, x.text, x.secs
 		}
@@ -287,11 +293,18 @@ func decide(cfg solveCfg, v *Verdict) {
 			record("unknown", "all", float64(cfg.slowT), "")
 		}
 	} else {
-		a, t, el := runSolver("z3-new", v.File, cfg.quickT)
-		record(a, "z3-new", el, t)
+		var a, t, sname string
+		var el float64
+		if expectSat {
+			a, t, el = runSolver("z3-new", v.File, cfg.quickT)
+			sname = "z3-new"
+		} else {
+			a, sname, t, el = raceSolvers([]string{"z3-new", "z3-new/noext"}, v.File, cfg.quickT)
+		}
+		record(a, sname, el, t)
 		if a != "unsat" && a != "sat" && !expectSat {
 			// race several configurations; any unsat is a proof
-			stage2 := []string{"z3-new/p1", "z3-new/p2", "z3-new/p3", "z3-new/p4", "z3-new/p5", "z3", "cvc5"}
+			stage2 := []string{"z3-new/p1", "z3-new/p2", "z3-new/p3", "z3-new/p4", "z3-new/noext2", "z3", "cvc5"}
 			a2, s2, t2, el2 := raceSolvers(stage2, v.File, 10)
 			if a2 == "unsat" || a2 == "sat" {
 				record(a2, s2, el2, t2)
